@@ -242,11 +242,56 @@ fn make_singular<E: Exact>(rng: &mut Rng, a: &mut DM<E>, how: u64) -> &'static s
     }
 }
 
+/// Exact metamorphic check: multiplying column j by 2^cj changes no comparison in the pivot search and no rounding, so
+/// determinant(A*D) must equal determinant(A) * 2^(sum cj) bit for bit (nonsingular or not), whatever the scale.
+fn judge_det_scaling(st: &mut Stats, rng: &mut Rng, class: &str, ar: &DM<Rat>) {
+    let n = ar.r;
+    let af: Vec<Vec<f64>> = match ar.a.iter().map(|r| r.iter().map(|v| v.as_exact_f64()).collect::<Option<Vec<f64>>>()).collect::<Option<Vec<_>>>() { Some(x) => x, None => return };
+    st.next_case();
+    let global = rng.bool();
+    let g = rng.int(-120, 120) as i32;
+    let cs: Vec<i32> = (0..n).map(|_| if global { g } else { rng.int(-70, 70) as i32 }).collect();
+    let tot: i32 = cs.iter().sum();
+    if tot.abs() > 900 { return; }
+    let asc: Vec<Vec<f64>> = af.iter().map(|r| r.iter().enumerate().map(|(j, v)| v * 2f64.powi(cs[j])).collect()).collect();
+    st.eval();
+    if let (Outcome::Ok(d0), o1) = (catch(|| mat_f64(&af).determinant()), catch(|| mat_f64(&asc).determinant())) {
+        if !d0.is_finite() { return; }
+        let want = d0 * 2f64.powi(tot);
+        if want != 0.0 && (want.abs() < 1e-290 || want.abs() > 1e290) { return; }
+        match o1 {
+            Outcome::Ok(d1) => if d1.to_bits() != want.to_bits() && d1 != want {
+                st.violation("C02:determinant:f64:scale-dependent", format!("columns scaled by 2^{:?}: determinant = {:e}, unscaled determinant {:e} times 2^{} = {:e}; class={} A={:?}", cs, d1, d0, tot, want, class, af));
+            },
+            o => st.violation("C02:determinant:f64:scale-dependent", format!("columns scaled by 2^{:?}: {}; class={} A={:?}", cs, o.describe(), class, af)),
+        }
+    }
+    st.count("det:f64:pow2-column-scaling");
+    // one column in the subnormal range (entries k*2^-1030 are still exactly representable): the determinant
+    // d0*2^-1030 is representable to ~44 bits; it must come out finite and close to it (a reciprocal of a subnormal
+    // pivot overflows; a quotient by it does not)
+    let nonsingular = matches!(catch(|| exact_det_rank_inv(ar)), Outcome::Ok((d, _, _)) if !d.is_zero());
+    if n >= 2 && nonsingular && rng.chance(0.15) {
+        let j0 = rng.usize(0, n - 1);
+        let asub: Vec<Vec<f64>> = af.iter().map(|r| r.iter().enumerate().map(|(j, v)| if j == j0 { v * 2f64.powi(-515) * 2f64.powi(-515) } else { *v }).collect()).collect();
+        st.eval();
+        if let (Outcome::Ok(d0), Outcome::Ok(d1)) = (catch(|| mat_f64(&af).determinant()), catch(|| mat_f64(&asub).determinant())) {
+            let want = d0 * 2f64.powi(-515) * 2f64.powi(-515);
+            if d0.is_finite() && (!d1.is_finite() || (d1 - want).abs() > 1e-6 * want.abs() + 2f64.powi(-1060)) {
+                st.violation("C02:determinant:f64:subnormal-column", format!("column {} scaled by 2^-1030: determinant = {:e}, expected about {:e}; class={} A={:?}", j0, d1, want, class, af));
+            }
+        }
+        st.count("det:f64:subnormal-column");
+    }
+}
+
 fn all_types(st: &mut Stats, class: &str, ar: &DM<Rat>, ac: &DM<CRat>) {
     judge_exact(st, class, ar);
     judge_exact(st, class, ac);
     judge_f64(st, class, ar);
     judge_cmplx(st, class, ac);
+    let mut r = Rng::new(ar.a.iter().flatten().fold(17u64, |h, v| hmix(h, v.n as u64)));
+    judge_det_scaling(st, &mut r, class, ar);
 }
 
 pub fn run(ctx: &Ctx) -> Report {
